@@ -12,6 +12,7 @@ from sa.variants import Variant, replace_once, sub_first, sub_once
 from .c06 import check_qualifiers
 from .c07 import check_cache_invalidation
 from .c12 import check_validate_first
+from sa.flow import defs_reaching, reaching_defs
 from .common import call_names, norm_atom, template_methods, vars_from_call
 
 ID = "C08"
@@ -40,6 +41,31 @@ VALIDATORS = [
     "runners._shared.helpers._validate_error_handling",
     "runners._shared.input_normalization.normalize_inputs",
 ]
+
+
+def check_effective_spec_not_memoised(ctx, rule: str) -> None:
+    """The specification a run is validated against is the graph's own (``graph.inputs``) or is recomputed for this call
+    from this graph's current state: it never comes out of a table that outlives the call (any key short of the full
+    graph state — bindings, nested bindings — serves one graph the contract of another)."""
+    db, rep = ctx.db, ctx.rep
+    f = db.func("runners._shared.validation._resolve_effective_input_spec")
+    cfg = ctx.cfg(f)
+    rd = reaching_defs(cfg)
+    bad = None
+    n = 0
+    for r in [x for x in cfg.nodes if x.kind == "stmt" and isinstance(x.ast, ast.Return) and x.ast.value is not None]:
+        n += 1
+        vals = [r.ast.value]
+        if isinstance(r.ast.value, ast.Name):
+            vals = [v for d, v in defs_reaching(cfg, rd, r, r.ast.value.id) if v is not None]
+        for v in vals:
+            fresh = isinstance(v, ast.Call) and "compute_input_spec" in call_names(db, v, f)
+            own = isinstance(v, ast.Attribute) and v.attr == "inputs" and isinstance(v.value, ast.Name) and v.value.id in f.param_names
+            if not (fresh or own):
+                bad = bad or (r, v)
+    if n < 2:
+        raise AnalysisError("_resolve_effective_input_spec: returns not found")
+    rep.add(rule, f"{f.qname}:spec-not-memoised", bad is None, f"{f.module.rel}:{(bad[0] if bad else f.node).lineno}", f"{n} exits: the graph's own specification or a fresh computation" if bad is None else f"an exit returns '{src(bad[1])[:60]}', a specification that was not computed for this call: a memo keyed by graph structure, entry points and selection is shared by every bind()/unbind() variant of the graph, so after g.bind(x=1) ran, g.bind(x=1).unbind('x') accepts a run that omits x (and the reverse order demands a bound input)")
 
 
 def run(ctx) -> None:
@@ -274,6 +300,7 @@ def run(ctx) -> None:
     check_spec_recomputation_inputs(ctx, "C08.R9")
     check_scope_recomputation_inputs(ctx, "C08.R9")
     check_validation_read_only(ctx, "C08.R9")
+    check_effective_spec_not_memoised(ctx, "C08.R9")
     # 'no narrowing' (None) is what "**" and an unset select without a graph selection mean — an explicit list of names
     # is a narrowing even when it names every output (nodes no output depends on, with their private inputs, drop out
     # of the scope and of the reported spec): under 'select was given and is not "**"' no return of the resolver is None
